@@ -1,6 +1,7 @@
 package main
 
 import (
+	"bytes"
 	"context"
 	"fmt"
 	"os"
@@ -366,6 +367,26 @@ func rtEngine(c *Ctx) {
 	rtExec(c, "rt tar ca direct "+filesetTok(sg))
 	zs := Fileset{{Name: "", Kind: 'd', Perms: 0755, Uid: 1000, Gid: 1000, Sec: 1e9}, {Name: "f", Kind: 'f', Perms: 0644, Uid: 1000, Gid: 1000, Sec: 1e9, Nsec: 5000, Content: []byte("x")}}
 	rtExec(c, "rt zip ca direct "+filesetTok(zs))
+	// file bodies shaped like sparse files: runs of zero bytes at the end, in the middle, block sized and not
+	{
+		rnd := func(n int) []byte {
+			b := make([]byte, n)
+			for i := range b {
+				b[i] = byte(c.Rand()) | 1
+			}
+			return b
+		}
+		z := func(n int) []byte { return make([]byte, n) }
+		cat := func(bs ...[]byte) []byte { return bytes.Join(bs, nil) }
+		f := func(n string, body []byte) Entry { return Entry{Name: n, Kind: 'f', Perms: 0644, Uid: 3, Gid: 4, Sec: 1e9, Content: body} }
+		sp := Fileset{{Name: "", Kind: 'd', Perms: 0755, Uid: 3, Gid: 4, Sec: 1e9}, f("data-then-0s", cat(rnd(4096), z(4096))), f("all-zero-8k", z(8192)), f("all-zero-4k", z(4096)),
+			f("zero-4097", z(4097)), f("hole-in-middle", cat(rnd(4096), z(8192), rnd(100))), f("zero-1m", z(1<<20)), f("tail-64k", cat(rnd(10), z(65536-10))), f("one-zero", z(1))}
+		for _, fm := range []string{"tar", "zip"} {
+			for _, m := range []string{"direct", "copy"} {
+				rtExec(c, fmt.Sprintf("rt %s ca %s %s", fm, m, filesetTok(sp)))
+			}
+		}
+	}
 }
 
 // sanitizeForRoundtrip keeps the generated fileset inside the property's domain and outside the
